@@ -565,7 +565,7 @@ fn init_contract(board: &crate::chess::board::Board) -> IncrementalEvalFields {
 //@ mem_gb: 4
 //@ note: base case of both inductions: the constructor used for every FEN stores the arguments unchanged, an empty history, key = zobrist::hash(of the finished game) and accumulators = IncrementalEvalFields::init(board) (both callees replaced by contract functions)
 #[kani::proof]
-#[kani::unwind(4)]
+#[kani::unwind(8)]
 #[kani::stub(crate::chess::zobrist::hash, hash_contract)]
 #[kani::stub(crate::engine::eval::IncrementalEvalFields::init, init_contract)]
 fn vk_c03_base_from_state() {
